@@ -382,13 +382,12 @@ Proof.
     destruct ((length k =? 0) || is_prefix k pk) eqn:A.
     + (* the whole subtree matches *)
       rewrite all_keys_entries. f_equal. f_equal. symmetry. apply filter_all.
-      intros [k' v'] H. apply entries_node_prefix in H as [s Es]. unfold has_prefix. simpl. rewrite Es.
+      intros [k' v'] H. apply in_entries_node in H as (s & -> & Hl). unfold has_prefix. cbn [fst].
       rewrite is_prefix_app_inv.
-      apply in_entries_node in H as (k'' & Ek & Hl). apply app_inv_head in Ek. subst k''.
       apply orb_true_iff in A as [A|A].
       * apply Nat.eqb_eq, length_zero_iff_nil in A. now subst.
       * assert (P : is_prefix pk s = true).
-        { rewrite lookup_branch in Hl. destruct (key_eqb_spec pk s) as [<-|]; [apply is_prefix_refl|].
+        { rewrite lookup_branch in Hl. destruct (key_eqb_spec pk s) as [Eq|]; [rewrite <- Eq; apply is_prefix_refl|].
           destruct (is_prefix pk s); [reflexivity|discriminate]. }
         eapply is_prefix_trans; eauto.
     + apply orb_false_iff in A as [A1 A2].
@@ -400,20 +399,19 @@ Proof.
         rewrite (is_prefix_split pk k P Lk) at 1 2. rewrite skipn_app_exact.
         set (ci := nth (length pk) k 0). set (ck := skipn (S (length pk)) k).
         rewrite entries_node_branch, filter_app.
-        assert (Own : filter (has_prefix (prefix ++ pk ++ ci :: ck))
-                        (match ov with Some v => [(prefix ++ pk, v)] | None => [] end) = []).
-        { destruct ov; cbn [filter]; auto. unfold has_prefix. cbn [fst].
-          rewrite is_prefix_app_inv. rewrite is_prefix_longer. reflexivity. }
-        rewrite Own, app_nil_l, app_assoc, filter_children_one. cbn [Nat.ltb Nat.leb]. rewrite Nat.sub_0_r.
+        assert (Eb : forall (a b : list (key * value)), a = [] -> a ++ b = b) by (intros a b ->; reflexivity).
+        rewrite Eb by (destruct ov; cbn [filter]; auto; unfold has_prefix; cbn [fst];
+                       rewrite is_prefix_app_inv, is_prefix_longer; reflexivity).
+        clear Eb.
+        rewrite (app_assoc prefix pk (ci :: ck)), filter_children_one. cbn [Nat.ltb Nat.leb]. rewrite Nat.sub_0_r.
         destruct (child_at cs ci) as [c|] eqn:E; auto.
         rewrite (Forall_child_at _ _ _ _ IH E). rewrite <- !app_assoc. reflexivity.
       * (* no key below this branch matches *)
         f_equal. symmetry. rewrite filter_none; auto.
-        intros [k' v'] H. apply entries_node_prefix in H as [s Es]. unfold has_prefix. simpl. rewrite Es.
+        intros [k' v'] H. apply in_entries_node in H as (s & -> & Hl). unfold has_prefix. cbn [fst].
         rewrite is_prefix_app_inv.
-        apply in_entries_node in H as (k'' & Ek & Hl). apply app_inv_head in Ek. subst k''.
         assert (Ps : is_prefix pk s = true).
-        { rewrite lookup_branch in Hl. destruct (key_eqb_spec pk s) as [<-|]; [apply is_prefix_refl|].
+        { rewrite lookup_branch in Hl. destruct (key_eqb_spec pk s) as [Eq|]; [rewrite <- Eq; apply is_prefix_refl|].
           destruct (is_prefix pk s); [reflexivity|discriminate]. }
         destruct (is_prefix k s) eqn:Q; auto. exfalso.
         destruct (Nat.le_ge_cases (length pk) (length k)) as [L|L].
@@ -449,6 +447,17 @@ Qed.
 Lemma Rep_nil_map m : Rep None m -> m = [].
 Proof. intros [_ E]. simpl in E. destruct m; [reflexivity|discriminate]. Qed.
 
+Lemma keys_filter_bmap pn p (m : bmap) :
+  (forall e, In e m -> is_prefix pn (key_le_to_nibbles (fst e)) = bytes_prefix p (fst e)) ->
+  map nibbles_to_key_le (map fst (filter (has_prefix pn) (kv_of_bmap m))) =
+  map fst (filter (fun e => bytes_prefix p (fst e)) m).
+Proof.
+  induction m as [|[kb v] m IH]; intros H; simpl; auto.
+  unfold has_prefix at 1. cbn [fst]. pose proof (H (kb, v) (or_introl eq_refl)) as H0. cbn [fst] in H0. rewrite H0.
+  destruct (bytes_prefix p kb); simpl; rewrite ?nibbles_to_key_le_of_bytes, IH; auto;
+    intros e He; apply H; simpl; auto.
+Qed.
+
 Theorem Rep_keys_with_prefix t m p : Rep t m -> guard_trim m p = false ->
   trie_keys_with_prefix t p = Ok (bm_keys_with_prefix m p).
 Proof.
@@ -456,24 +465,7 @@ Proof.
   destruct t as [n|].
   - destruct R as [C E]. simpl in E.
     rewrite keys_with_prefix_spec, app_nil_l, E. f_equal.
-    unfold kv_of_bmap. rewrite !map_map.
-    assert (F : forall (f g : list byte * value -> bool), (forall e, In e m -> f e = g e) ->
-                map (fun x => nibbles_to_key_le (fst x))
-                    (filter (fun e => f (nibbles_to_key_le (fst e), snd e)) (map (fun e => (key_le_to_nibbles (fst e), snd e)) m))
-                = map fst (filter g m)).
-    { intros f g H. induction m as [|[kb v] m IH]; simpl; auto.
-      rewrite nibbles_to_key_le_of_bytes. rewrite (H (kb, v)) by (simpl; auto).
-      destruct (g (kb, v)); simpl; rewrite ?nibbles_to_key_le_of_bytes; rewrite IH; auto;
-        intros e He; apply H; simpl; auto. }
-    set (pn := match p with [] => [] | _ :: _ => trim_zero_suffix (key_le_to_nibbles p) end).
-    rewrite <- (F (fun e => is_prefix pn (key_le_to_nibbles (fst e))) (fun e => bytes_prefix p (fst e))).
-    + f_equal. induction m as [|[kb v] m IH]; simpl; auto. unfold has_prefix at 1. cbn [fst].
-      rewrite nibbles_to_key_le_of_bytes. destruct (is_prefix pn (key_le_to_nibbles kb)); simpl; f_equal; apply IH.
-      * intros e He. apply (guard_trim_false _ _ G). simpl; auto.
-      * unfold guard_trim in *. simpl in G. apply orb_false_iff in G. tauto.
-      * intros e He. apply (guard_trim_false _ _ G). simpl; auto.
-      * unfold guard_trim in *. simpl in G. apply orb_false_iff in G. tauto.
-    + intros e He. rewrite <- (guard_trim_false m p G e He). unfold go_prefix, pn.
-      destruct p; [|reflexivity]. simpl. reflexivity.
+    apply keys_filter_bmap. intros e He. rewrite <- (guard_trim_false m p G e He).
+    unfold go_prefix. destruct p; reflexivity.
   - apply Rep_nil_map in R. subst. reflexivity.
 Qed.
